@@ -347,7 +347,7 @@ class Report:
         self.violations.append({"kind": kind, "what": what, "detail": detail, "failing_input": failing_input})
 
     def known_finding(self, k, count, example):
-        self.known_lines.append(f"KNOWN-FINDING: property={self.pid} {k['what']} [tag={k.get('tag')}, {count} case(s) this run, e.g. {example}]")
+        self.known_lines.append(f"KNOWN-FINDING: property={self.pid} {k['what']} [tag={k.get('tag')}, {count} case(s) this run, e.g. {example[:400]}]")
 
     def absorb_prove(self, pr):
         cov = self.coverage
